@@ -6,6 +6,7 @@ package main
 import (
 	"fmt"
 	"go/types"
+	"net"
 	"strings"
 
 	"golang.org/x/tools/go/ssa"
@@ -403,7 +404,7 @@ func init() {
 		"sync/atomic.CompareAndSwapInt32": atomicCAS, "sync/atomic.CompareAndSwapInt64": atomicCAS,
 		"sync/atomic.CompareAndSwapUint32": atomicCAS, "sync/atomic.CompareAndSwapUint64": atomicCAS,
 		"sync/atomic.CompareAndSwapPointer": atomicCAS,
-		"sync/atomic.AndInt32": atomicAnd, "sync/atomic.AndUint32": atomicAnd, "sync/atomic.OrInt32": atomicOr, "sync/atomic.OrUint32": atomicOr,
+		"sync/atomic.AndInt32":              atomicAnd, "sync/atomic.AndUint32": atomicAnd, "sync/atomic.OrInt32": atomicOr, "sync/atomic.OrUint32": atomicOr,
 		"(*sync/atomic.Value).Load": func(in *Interp, fn *ssa.Function, args []Value) Value {
 			return in.load(in.fieldPtr(args[0].(Ptr), 0), types.NewInterfaceType(nil, nil))
 		},
@@ -499,7 +500,7 @@ func init() {
 		"time.Now": func(in *Interp, fn *ssa.Function, args []Value) Value {
 			return in.timeNow()
 		},
-		"time.Sleep":         noop,
+		"time.Sleep": noop,
 		"time.Since": func(in *Interp, fn *ssa.Function, args []Value) Value {
 			d := in.p.fresh("since", BV(64))
 			in.p.nondets = append(in.p.nondets, &Nondet{Tag: "time.Now", Kind: "u64", t: d})
@@ -918,12 +919,30 @@ func init() {
 			if !isI {
 				return strLit("?fmt.Sprintf")
 			}
-			// values with their own String/Error methods are not rendered natively
+			// values with their own String/Error methods are rendered by
+			// calling that method in the engine
 			if iv.t != nil {
-				if _, isNamed := iv.t.(*types.Named); isNamed {
-					if ms := in.ld.prog.MethodSets.MethodSet(iv.t); ms.Lookup(nil, "String") != nil || ms.Lookup(nil, "Error") != nil {
-						return strLit("?fmt.Sprintf")
+				ms := in.ld.prog.MethodSets.MethodSet(iv.t)
+				rendered := false
+				for _, mn := range []string{"Error", "String"} {
+					if sel := ms.Lookup(nil, mn); sel != nil {
+						if sig, ok := sel.Type().(*types.Signature); ok && sig.Params().Len() == 0 && sig.Results().Len() == 1 && isString(sig.Results().At(0).Type()) {
+							r := in.callIface(iv, mn)
+							if st, ok := r.(Str); ok {
+								if cs, ok := concreteStr(st); ok {
+									gv = append(gv, cs)
+									rendered = true
+								}
+							}
+							if !rendered {
+								return strLit("?fmt.Sprintf")
+							}
+							break
+						}
 					}
+				}
+				if rendered {
+					continue
 				}
 			}
 			g, ok := in.goValue(iv, nil)
@@ -982,5 +1001,33 @@ func init() {
 		old := in.load(p, types.NewInterfaceType(nil, nil))
 		in.store(p, args[1])
 		return old
+	}
+}
+
+func init() {
+	// net.IP text functions: computed natively on concrete values (netip's
+	// internals use unsafe/unique handles the engine does not execute).
+	libModels["(net.IP).String"] = func(in *Interp, fn *ssa.Function, args []Value) Value {
+		b, ok := in.goValue(args[0], byteSliceT)
+		if !ok {
+			panic(engineError{"(net.IP).String on symbolic address bytes"})
+		}
+		return strLit(net.IP(b.([]byte)).String())
+	}
+	libModels["net.ParseIP"] = func(in *Interp, fn *ssa.Function, args []Value) Value {
+		s, ok := concreteStr(args[0].(Str))
+		if !ok {
+			panic(engineError{"net.ParseIP on symbolic text"})
+		}
+		ip := net.ParseIP(s)
+		if ip == nil {
+			return Slice{}
+		}
+		sl := in.newByteSlice(uint64(len(ip)))
+		a := in.sarrOf(sl)
+		for i, c := range ip {
+			a.set(C64(uint64(i)), Const(8, uint64(c)))
+		}
+		return sl
 	}
 }
